@@ -465,6 +465,63 @@ def invariant_oracle(case):
     return None
 
 
+# ---- @property fields with dependants (implementation only: user functions are not in the model) ----
+PROP_VARIANTS = [
+    ("b: str", "b"), ("b: str = Field(no_output=True)", "b"), ("b: str = Field(alias='b_out')", "b_out"),
+    ("b: Optional[str] = Field(default=None, no_output=lambda v: v is None)", "b"),
+    ("b: str = Field(no_output='w')", "b"), ("b: str = Field(default='d', alias_from=['b1'])", "b"),
+]
+
+
+def property_case(rng):
+    decl_b, key_b = rng.choice(PROP_VARIANTS)
+    name = dyn.fresh("Pr")
+    alias = rng.choice(["", "alias='combo_out', "])
+    src = ("class %s(Schema):\n    a: int\n    %s\n\n    @property\n    @Field(%sdependencies=['a', 'b'])\n"
+           "    def combo(self) -> str:\n        return '%%s|%%s' %% (self.a, self.b)\n" % (name, decl_b, alias))
+    dyn.declare(src)
+    ops = []
+    for _ in range(rng.randint(1, 5)):
+        tgt = rng.choice(["a", "b"])
+        v = rng.choice([1, "2", 3.0, 40]) if tgt == "a" else rng.choice(["x", "yz", 5, None if "Optional" in decl_b else "w", ""])
+        how = rng.choice(["item", "attr", "update", "setdefault"])
+        key = tgt if tgt == "a" else rng.choice([key_b, "b"])
+        ops.append((how, tgt, key, v))
+    return dict(cls=name, src=src, out="combo_out" if alias else "combo", ops=ops)
+
+
+def property_oracle(case):
+    warnings.simplefilter("ignore")
+    cls = dyn.get(case["cls"])
+    try:
+        s = cls(a=1, b="q")
+    except Exception:
+        return None
+    def expected():
+        return "%s|%s" % (s.a, s.b)
+    out = case["out"]
+    if s[out] != expected():
+        return "after construction the property holds %r, its function gives %r" % (s[out], expected())
+    for n, (how, tgt, key, v) in enumerate(case["ops"]):
+        try:
+            if how == "item": s[key] = v
+            elif how == "attr": setattr(s, tgt, v)
+            elif how == "update": s.update({key: v})
+            else: s.setdefault(key, v)
+        except Exception:
+            continue
+        try:
+            want = expected()
+        except AttributeError:
+            continue
+        got_item = dict.get(s, out, "<absent>")
+        got_attr = getattr(s, "combo", "<absent>")
+        if got_item != want or got_attr != want:
+            return ("step %d %r: the property depends on the changed field but holds %r (mapping) / %r (attribute); "
+                    "recomputed it is %r" % (n, (how, key, v), got_item, got_attr, want))
+    return None
+
+
 def main(tier, seed):
     warnings.simplefilter("ignore")
     res = core.Result(PID, tier, seed)
@@ -486,6 +543,17 @@ def main(tier, seed):
         res.violations.append(dict(case=repr(dict(src=srcs[c["cls"]], data=c["data"], ops=c["ops"])), observed=o, what=o))
     for c, o in alias[:2]:
         res.violations.append(dict(case=repr(dict(src=srcs[c["cls"]], data=c["data"], ops=c["ops"])), observed=o, what=o))
+    pcases = [property_case(rng) for _ in range(300 if tier == "quick" else 4000)]
+    pouts = core.pool_map(property_oracle, pcases)
+    pbad = [(c, o) for c, o in zip(pcases, pouts) if isinstance(o, str)]
+    res.add_suite("dependant-properties", len(pcases), len({repr((c["src"].split("\n", 1)[1], c["ops"])) for c in pcases}),
+                  [dict(src=pcases[0]["src"], ops=repr(pcases[0]["ops"]))],
+                  "a Schema with a @property field depending on two fields (plain, aliased, no_output, no_output by value or mode); "
+                  "after every successful assignment (item, attribute, update, setdefault) the property in the mapping and by attribute "
+                  "must equal its function applied to the current field values",
+                  dict(failures=len(pbad)))
+    for c, o in pbad[:2]:
+        res.violations.append(dict(case=repr(dict(src=c["src"], ops=c["ops"], kind="property", out=c["out"])), observed=o, what=o))
     if not res.violations and mism:
         for c, o in mism[:3]:
             res.violations.append(dict(case=repr(dict(src=srcs[c["cls"]], data=c["data"], ops=c["ops"])), observed=repr(o)[:800],
@@ -505,6 +573,12 @@ def replay(path):
         r = core.build(["Props/%s.vo" % PID])
         return 0 if r["ok"] else 1
     c = eval(d["case"], {"inf": float("inf"), "nan": float("nan")})
+    if c.get("kind") == "property":
+        name = dyn.fresh("Rp")
+        dyn.declare(re.sub(r"class \w+\(", "class %s(" % name, c["src"], 1))
+        msg = property_oracle(dict(cls=name, out=c["out"], ops=c["ops"]))
+        print("class:\n" + c["src"], "\noperations:", c["ops"], "\n->", msg or "property holds on this case")
+        return 1 if msg else 0
     name = dyn.fresh("Rp")
     dyn.declare(re.sub(r"class \w+\(", "class %s(" % name, c["src"], 1))
     case = dict(cls=name, data=c["data"], ops=c["ops"])
